@@ -145,7 +145,13 @@ impl<S: Stream + Unpin> Stream for MergeUnbounded<S> {
                 }
             }
         }
-        Poll::Pending
+        // every group has been polled, but sources may have ended during this very call:
+        // a merge without sources is finished, not pending (nothing would ever wake the task)
+        if self.is_empty() {
+            Poll::Ready(None)
+        } else {
+            Poll::Pending
+        }
     }
 }
 
